@@ -1523,7 +1523,9 @@ impl<'p> Harness<'p> {
             if !wrote.contains(&tag) {
                 continue;
             }
-            if self.necessary.contains(&tag) {
+            // (a variable made with var_current_scope whose closure run is gone is invalid: nothing
+            // follows it any more, however many observers its watch node still has)
+            if self.necessary.contains(&tag) && self.model.node(tag).valid {
                 necessary_written = true;
             }
             let Some(var) = self.vars[vi].var.clone() else { continue };
